@@ -25,7 +25,8 @@ Admissible(type, form, v) ==
       [] type = "Bool" -> form \in BoolForms(v)
       [] type = "Bytes" -> form \in BytesForms
       [] type = "Address" -> form \in AddressForms
-      [] type = "UtxoRef" -> form \in UtxoRefForms
+      \* (v is the output index: 32 bits in the IR and on chain; a wider one denotes no reference and must be refused)
+      [] type = "UtxoRef" -> form \in UtxoRefForms /\ Ge(v, Zero) /\ Lt(v, Two32)
       [] OTHER -> FALSE
 
 \* ill-formed shapes: each must be rejected whatever the target type
